@@ -62,8 +62,9 @@ def _get_shortest_public_reexport(
     def _module_name_check(text: str, is_wildcard: bool = False) -> bool:
         if is_module:
             if qname:
-                # Only reexports of this very module count, not those of another module with the same name
-                return qname == text or qname.endswith(f".{text}")
+                # Only reexports of this very module count, not those of another module with the same name (a module
+                # of the package called "logging" is not reexported by "import logging")
+                return qname == text
             return text.endswith(f".{name}") or text == name
         elif is_wildcard:
             return text.endswith(f".{parent_name}") or text == parent_name
